@@ -271,6 +271,24 @@ static std::string send_and_collect(DhtRouter* r, uint32_t ip, const std::string
   return out.empty() ? "none" : out;
 }
 
+// DhtServer binds with SO_REUSEADDR; with port 0 the kernel may hand the same ephemeral port to two
+// harness processes running in parallel (the later one then steals the datagrams).  Pick a port
+// outside the ephemeral range, disjoint per process, and verify with a non-reuse probe that nobody
+// holds it.
+static int pick_port() {
+  static unsigned counter = 0;
+  for (int tries = 0; tries < 200; tries++) {
+    int port = 10000 + (int)((getpid() % 2000) * 10 + (counter++ % 10));
+    if (tries >= 10) port = 10000 + (int)((getpid() * 7919u + counter * 104729u) % 20000);
+    int fd = socket(AF_INET, SOCK_DGRAM, 0);
+    sockaddr_in sin = mk_sin(0, port);
+    bool ok = fd >= 0 && bind(fd, reinterpret_cast<sockaddr*>(&sin), sizeof sin) == 0;
+    if (fd >= 0) close(fd);
+    if (ok) return port;
+  }
+  throw std::runtime_error("no free UDP port");
+}
+
 static long long g_now;
 static void set_now(long long s) {
   g_now = s;
@@ -289,7 +307,7 @@ static std::string run_case(const std::vector<std::string>& t) {
   Object cache = Object::create_map();
   cache.insert_key("self_id", std::string(own.data(), 20));
   std::unique_ptr<DhtRouter> r(new DhtRouter(cache));
-  r->start(0);
+  r->start(pick_port());
   // DhtRouter::start schedules the bootstrap timeout; the harness calls receive_timeout itself.
   std::string out;
   try {
